@@ -224,6 +224,14 @@ func (sp *MsgSpec) Build() (*mail.Msg, []string, error) {
 		_ = m.From("left.over@example.com")
 		_ = m.To("left.over@example.com", "second.left.over@example.com")
 		_ = m.Bcc("hidden.left.over@example.com")
+		_ = m.Cc("cc.left.over@example.com")
+		_ = m.ReplyTo("reply.left.over@example.com")
+		_ = m.EnvelopeFrom("bounce.left.over@example.com")
+		m.SetGenHeader("X-Left-Over", "generic header of the earlier use")
+		m.SetGenHeaderPreformatted("X-Left-Over-Pre", "preformatted header of the earlier use")
+		m.SetMessageIDWithValue("left.over@example.com")
+		m.SetBulk()
+		_ = m.RequestMDNTo("mdn.left.over@example.com")
 		m.SetBodyString(mail.TypeTextPlain, "left over body")
 		m.AddAlternativeString(mail.TypeTextHTML, "<p>left over</p>")
 		_ = m.AttachReader("left-over.txt", strings.NewReader("left over attachment"))
@@ -295,7 +303,8 @@ func (sp *MsgSpec) Build() (*mail.Msg, []string, error) {
 				return nil, nil, fmt.Errorf("RequestMDNTo: error %v, but net/mail accepts all addresses: %v", err, okAll)
 			}
 			if okAll {
-				gen("Disposition-Notification-To", strs...)
+				// stored as net/mail renders them, not passed through the header encoder
+				ops = append(ops, "genraw", encS("Disposition-Notification-To"), encLS(strs))
 			}
 			continue
 		}
@@ -814,10 +823,11 @@ var fileNames = []string{"file.txt", "image.png", "doc.pdf", "no-extension", "wi
 	"Квартальный отчёт за 2024 год.pdf", "Übersichtsgrafik der Jahresabschlussprüfung für Österreich.png", "非常に長い日本語のファイル名の例ですよ.txt",
 	"a long, mostly ASCII file name with one ümlaut that needs more than one encoded-word.txt",
 	"caf\xe9 men\xfc.txt", "data\xff\xfe.bin", "half\xc3.txt"}
-var genKeys = []string{"Subject", "Organization", "X-Custom", "In-Reply-To", "References", "Importance", "X-Priority", "List-Unsubscribe", "Precedence"}
+var genKeys = []string{"User-Agent", "X-Mailer", "Date", "Message-ID", "MIME-Version", "Subject", "Organization", "X-Custom", "In-Reply-To", "References", "Importance", "X-Priority", "List-Unsubscribe", "Precedence"}
 var goodAddrs = []string{"alice@example.com", "Bob <bob@example.org>", "\"Last, First\" <lf@example.net>", "Jürgen Müller <jm@example.de>", "\"quoted local\"@example.com",
 	"<carol@example.com>", "dave+tag@sub.example.co.uk", "\"a b>c\"@example.com", "Eve (comment) <eve@example.com>", "=?UTF-8?q?Enc?= <enc@example.com>",
 	"\"Very Long Display Name That Goes On And On And On For Quite A While Indeed\" <long@example.com>",
+	"عل\u200cرضا@example.com", "soft\u00adhyphen@example.com", "Zero\u200bWidth <zw\u200bsp@example.com>", "\"bidi \u202e name\" <bi\u200ddi@example.com>", "ümlaut@example.com", "bom\ufeff@example.com",
 	"\"Zoë \\\\ Backslash\" <zoe@example.com>", "\"Quote \\\" and \\\\ in ASCII\" <q@example.com>", "\"名前 \\\\\" <cjk@example.com>"}
 var badAddrs = []string{"invalid", "", "@", "a@", "two@@example.com", "x y z", "<>", "a@b@c"}
 
